@@ -43,7 +43,94 @@ def pool(rng):
     p["convHW"] = conv % "H, W" + "mapping:\n  loop-order:\n    O: [P, Q, R, S]\n"
     p["convWH"] = conv % "W, H" + "mapping:\n  loop-order:\n    O: [P, Q, R, S]\n"
     p["gemmT"] = p["gemm"].replace("A: [K, M]", "A: [M, K]")
+    # format entries that leave fields to their defaults (an uncompressed rank without pbits / cbits) under payload / elem / coord bindings:
+    # whatever the translator fills in must not be written into the caller's Format
+    p["fmtU"] = FMT_U
     return p
+
+
+FMT_U = """einsum:
+  declaration:
+    A: [K, M]
+    B: [K]
+    Z: [M]
+  expressions:
+  - Z[m] = A[k, m] * B[k]
+mapping:
+  spacetime:
+    Z:
+      space: []
+      time: [M, K]
+format:
+  A:
+    default:
+      rank-order: [M, K]
+      M:
+        format: U
+      K:
+        format: C
+        cbits: 32
+        pbits: 64
+  B:
+    default:
+      rank-order: [K]
+      K:
+        format: C
+        pbits: 32
+  Z:
+    default:
+      rank-order: [M]
+      M:
+        format: C
+        cbits: 32
+        pbits: 64
+architecture:
+  accel:
+  - name: level0
+    attributes:
+      clock_frequency: 2048
+    local:
+    - name: DRAM
+      class: DRAM
+      attributes:
+        bandwidth: 512
+    subtree:
+    - name: level1
+      local:
+      - name: L2Cache
+        class: Cache
+        attributes:
+          width: 64
+          depth: 1024
+bindings:
+  Z:
+  - config: accel
+    prefix: tmp/Z
+  - component: DRAM
+    bindings:
+    - tensor: A
+      rank: K
+      type: coord
+      format: default
+    - tensor: A
+      rank: K
+      type: payload
+      format: default
+    - tensor: Z
+      rank: M
+      type: elem
+      format: default
+  - component: L2Cache
+    bindings:
+    - tensor: A
+      rank: M
+      type: payload
+      format: default
+    - tensor: B
+      rank: K
+      type: coord
+      format: default
+"""
 
 
 TWINS = [("convHW", "convWH"), ("gemm", "gemmT")]
